@@ -114,5 +114,7 @@ def upd {β} (f : Nat → β) (k : Nat) (v : β) : Nat → β := fun x => if x =
 
 /-- first temporary block id; ids below are inline buffers (0..3) and heap blocks (4..) -/
 def tmpBase : Nat := 1000000
+/-- the null data pointer of containers with inline capacity 0 (an empty block that is never allocated) -/
+def nullBlk : Nat := 999999
 
 end SvModel
